@@ -146,7 +146,7 @@ TEXT = {
         "engine": "ve2e (E2E) + vmux (PURE)",
         "technique": "fault enumeration per connection attempt through a scripted gate in front of a real server, timing oracle with load / quiescence witnesses; exhaustive differential check of the back-off generator",
         "design_ref": "DESIGN.md §4 C19",
-        "level_text": "Each script of per-attempt server behaviours is executed against the real client several times; attempt counts, lower/upper delay bounds against the reference back-off, exit conditions, listener availability, survival of a local conversation across an outage / stream-request timeout and self-reconnect after an orderly Close are checked. The back-off generator itself is compared exhaustively with a reference over small tuples and reset patterns, and over 400-advance outages (a panic is a violation); one E2E script is an outage of 100 consecutive failures.",
+        "level_text": "Each script of per-attempt server behaviours is executed against the real client several times; attempt counts, lower/upper delay bounds against the reference back-off, exit conditions, listener availability, survival of a local conversation across an outage / stream-request timeout and self-reconnect after an orderly Close are checked. The back-off generator itself is compared exhaustively with a reference over small tuples and reset patterns, and over 400-advance outages (a panic is a violation); E2E scripts include an outage of 100 consecutive failures, 200 local datagrams and 110 pending SOCKS requests arriving while the tunnel is down, a request outstanding when the tunnel is lost, connections that die while a parked request is retried, and a stall inside the TLS set-up.",
         "level_note": "Real time: upper bounds are tolerant, need 5 late repeats with a punctual-timer load witness, and otherwise fall back to inconclusive; scripts are a fixed set plus seeded ones in thorough.",
     },
     "C01": {
